@@ -480,6 +480,7 @@ impl Rig {
             auth: "protocol".into(),
             timeout_ms: 10_000,
             events: false,
+            ..Default::default()
         };
         let sim = Sim::new_with(cfg, &register);
         let nch = sim.server.world().resource::<RepliconChannels>().client_channels().len();
